@@ -45,3 +45,27 @@ Definition c02_no_silent_stall_g (c : vconfig) (st : fstep) : bool :=
 (* the stranded class, as a classifier of a failing step of c02_no_silent_stall *)
 Definition c02_stranded_class (c : vconfig) (st : fstep) : bool :=
   negb (c02_no_silent_stall c st) && negb (strand_free (fs_post st)).
+
+(* ---- the FIN half of c02_rto_armed, for the polls that start with our FIN number already allocated:
+   local FIN state, the clause holds before the poll (our FIN outstanding => timer armed), and in
+   FinWait1 the FIN is numbered right after the last segment of the table ---- *)
+Definition fin_out (f : vfp) : bool :=
+  match our_fin_if_unacked (f_state f) with
+  | Some fin => f_last_sent_seq_nr f =? fin
+  | None => false
+  end.
+
+Definition fo_fp (f : vfp) : bool :=
+  if fin_out f then match f_t_retransmit f with Some _ => true | None => false end else true.
+
+Definition fn_fp (f : vfp) : bool :=
+  match f_state f with
+  | FinWait1 fin => fin =? wadd16 (f_snd_una f) (Z.of_nat (length (f_segs f)) mod M16)
+  | _ => true
+  end.
+
+Definition fin_alloc_guard (f : vfp) : bool :=
+  is_local_fin_or_later (f_state f) && fo_fp f && fn_fp f.
+
+Definition c02_rto_armed_fin_g (c : vconfig) (st : fstep) : bool :=
+  if fin_alloc_guard (fs_pre st) then c02_rto_armed c st else true.
